@@ -1025,6 +1025,9 @@ def iterate(I, st, v):
     if isinstance(v, Ref):
         e = st.get(v)
         if e.kind in ("list", "deque"):
+            from .loops import lazy_note
+
+            lazy_note(st, v, e.items)
             return list(e.items)
         if e.kind == "set":
             return list(e.items)
@@ -1037,6 +1040,9 @@ def iterate(I, st, v):
         if e.kind == "obj" and "__tuple__" in e.attrs and I.class_lookup(e.cls, "__iter__")[0] is None:
             return list(e.attrs["__tuple__"])
         if e.kind == "obj" and "__list__" in e.attrs and I.class_lookup(e.cls, "__iter__")[0] is None:
+            from .loops import lazy_note
+
+            lazy_note(st, e.attrs["__list__"], st.get(e.attrs["__list__"]).items)
             return list(st.get(e.attrs["__list__"]).items)
         if e.kind == "obj" and "__dictdata__" in e.attrs and I.class_lookup(e.cls, "__iter__")[0] is None:
             return list(st.get(e.attrs["__dictdata__"]).items)
@@ -1045,7 +1051,13 @@ def iterate(I, st, v):
             if m is not None:
                 outs = list(I.call(m, [v], {}, st))
                 if len(outs) == 1 and not isinstance(outs[0][1], Exc):
-                    return iterate(I, outs[0][0], outs[0][1])
+                    items = iterate(I, outs[0][0], outs[0][1])
+                    if outs[0][0] is not st:
+                        # the state __iter__ ran in is dropped: keep what it recorded about lazily iterated lists
+                        for gk, gv in outs[0][0].ghost.items():
+                            if gk in ("__lazy_iter_rec__", "__last_lazy__") or (isinstance(gk, tuple) and gk and gk[0] == "lazy_src"):
+                                st.ghost[gk] = gv
+                    return items
                 raise Unsupported("__iter__ forks")
         if e.kind == "symlist":
             raise Unsupported("iteration over a symbolic-length list needs a loop invariant")
